@@ -6,6 +6,7 @@
         passing through xml::escape_xml_string.                                                 */
 #include "vstd_c.h"
 #include "ghost.h"
+int gh_lc_phase_a1; unsigned long gh_vec_cap;
 int gh_lc_phase, g_pending, g_bad, g_failbit, g_lost, g_emitted, g_raw_emitted, gh_corpus_null, gh_corpus_empty;
 unsigned long gh_ntus, gh_tus_written, gh_corpora_written;
 int w_write_corpus(unsigned indent, int member_of_group);
@@ -13,9 +14,10 @@ int w_write_elf_symbol(unsigned indent, int null_sym);
 int w_write_corpus_group(unsigned indent, int null_group);
 int w_write_elf_symbol_reference(void);
 int w_write_elf_needed(unsigned long n, unsigned indent);
+int w_write_elf_symbol_aliases(void);
 #define POST(c) __CPROVER_assert(c, "postcondition: " #c)
 static void fresh_stream(void)
-{ g_pending = 0; g_bad = 0; g_failbit = 0; g_lost = 0; g_emitted = 0; g_raw_emitted = 0; gh_lc_phase = nondet_int(); }
+{ g_pending = 0; g_bad = 0; g_failbit = 0; g_lost = 0; g_emitted = 0; g_raw_emitted = 0; gh_lc_phase = nondet_int(); gh_lc_phase_a1 = nondet_int(); gh_vec_cap = nondet_ulong(); __CPROVER_assume(gh_vec_cap <= (1UL << 16)); }
 
 void h_write_corpus(void)
 {
@@ -73,4 +75,13 @@ void h_write_elf_needed(void)
   POST(!g_raw_emitted);
   POST((r != 0) == (in_n != 0));
   CANARY_h_write_elf_needed;
+}
+void h_write_elf_symbol_aliases(void)
+{
+  fresh_stream();
+  int r = w_write_elf_symbol_aliases();
+  POST(!g_raw_emitted);                 /* alias ids are free-form symbol names: escaped */
+  POST(r ==> g_emitted);
+  POST(!r ==> !g_emitted);
+  CANARY_h_write_elf_symbol_aliases;
 }
